@@ -1176,11 +1176,17 @@ func (tr *tracer) execStmt(fi *FuncInfo, s ast.Stmt, st *pathState) []*pathState
 				for _, e := range cc.List {
 					ts = append(ts, exprStr(e))
 				}
+				if cc.List == nil {
+					ts = []string{"default"}
+				}
 				n.trace = append(n.trace, TraceItem{Prim: "typecase", Arg: strings.Join(ts, ","), Pos: cc.Pos()})
 			}
 			out = append(out, tr.execList(fi, cc.Body, []*pathState{n})...)
 		}
 		if !hasDefault {
+			if tr.markTypeCases {
+				st.trace = append(st.trace, TraceItem{Prim: "typecase", Arg: "default", Pos: x.Pos()})
+			}
 			out = append(out, st)
 		}
 		// paths that performed no primitive in any clause are indistinguishable: keep one
